@@ -85,18 +85,59 @@ func TestDemoD8TextOutUnopenable(t *testing.T) {
 	}
 }
 
-// D9 (C16.R2): selecting one archive leaves nil series in the list.
+// D9 (C16.R2): selecting one archive (or a window outside an archive's
+// retention) leaves nil series in the list.
 func TestDemoD9SingleArchiveNilSeries(t *testing.T) {
 	dir := demoDir(t)
-	demoGenerate(t, filepath.Join(dir, "s", "a.wsp"), "1s:10s,5s:50s", true)
-	demoGenerate(t, filepath.Join(dir, "d", "a.wsp"), "1s:10s,5s:50s", true)
-	defer func() {
-		if r := recover(); r != nil {
-			t.Fatalf("diff -archive 1 panicked: %v", r)
+	l := demoGenerate(t, filepath.Join(dir, "s", "item1", "a.wsp"), "1s:10s,5s:50s", true)
+	demoGenerate(t, filepath.Join(dir, "d", "item1", "a.wsp"), "1s:10s,5s:50s", true)
+	run := func(name string, f func() error) {
+		t.Run(name, func(t *testing.T) {
+			defer func() {
+				if r := recover(); r != nil {
+					t.Fatalf("%s panicked: %v", name, r)
+				}
+			}()
+			if err := f(); err != nil && err != ErrDiffFound {
+				t.Fatalf("%s: %v", name, err)
+			}
+		})
+	}
+	run("diff -archive 1", func() error {
+		return (&DiffCommand{SrcBase: filepath.Join(dir, "s"), SrcRelPath: "item1/a.wsp", DestBase: filepath.Join(dir, "d"), ArchiveID: 1, TextOut: ""}).Execute()
+	})
+	run("copy -archive 1", func() error {
+		return (&CopyCommand{SrcBase: filepath.Join(dir, "s"), SrcRelPath: "item1/a.wsp", DestBase: filepath.Join(dir, "d"),
+			ArchiveInfoList: l, AggregationMethod: whispertool.Sum, ArchiveID: 1, TextOut: ""}).Execute()
+	})
+	run("sum -archive 1", func() error {
+		return (&SumCommand{SrcBase: filepath.Join(dir, "s"), ItemPattern: "item1", SrcPattern: "*.wsp", ArchiveID: 1, TextOut: ""}).Execute()
+	})
+	run("sum-diff -archive 0", func() error {
+		return (&SumDiffCommand{SrcBase: filepath.Join(dir, "s"), ItemPattern: "item1", SrcPattern: "*.wsp",
+			DestBase: filepath.Join(dir, "d"), DestRelPath: "a.wsp", ArchiveID: 0, TextOut: ""}).Execute()
+	})
+	s := demoServer(t, filepath.Join(dir, "s"))
+	t.Run("remote view -archive 1 equals local", func(t *testing.T) {
+		now := whispertool.TimestampFromStdTime(time.Now())
+		_, local, err := readWhisperFile(filepath.Join(dir, "s"), "item1/a.wsp", 1, 0, now, now)
+		if err != nil {
+			t.Fatal(err)
 		}
-	}()
-	c := &DiffCommand{SrcBase: filepath.Join(dir, "s"), SrcRelPath: "a.wsp", DestBase: filepath.Join(dir, "d"), ArchiveID: 1, TextOut: ""}
-	_ = c.Execute()
+		_, remote, err := readWhisperFile(s.URL, "item1/a.wsp", 1, 0, now, now)
+		if err != nil {
+			t.Fatalf("remote: %v", err)
+		}
+		lp, rp := local.PointsList(), remote.PointsList()
+		if len(lp) != len(rp) {
+			t.Fatalf("archive counts differ: %d vs %d", len(lp), len(rp))
+		}
+		for i := range lp {
+			if !lp[i].Equal(rp[i]) {
+				t.Fatalf("archive %d differs: local %v remote %v", i, lp[i], rp[i])
+			}
+		}
+	})
 }
 
 // D10 (C16.R1): sum-diff with a missing destination reports success.
